@@ -130,6 +130,9 @@ pub fn ref_eq(a: &V, b: &V) -> R<bool> {
         (Int(x), Float(y)) | (Float(y), Int(x)) => {
             if x.unsigned_abs() <= (1u64 << 53) {
                 (*x as f64) == *y
+            } else if ((*x as f64) - *y).abs() >= 4096.0 {
+                // far apart (the integer's own rounding to a double is below 1024): certainly different numbers
+                false
             } else {
                 return unspec("int/float equality beyond 2^53");
             }
@@ -168,14 +171,14 @@ pub fn ref_cmp(a: &V, b: &V) -> R<Option<std::cmp::Ordering>> {
         (Int(x), Int(y)) => Some(x.cmp(y)),
         (Float(x), Float(y)) => x.partial_cmp(y),
         (Int(x), Float(y)) => {
-            if x.unsigned_abs() <= (1u64 << 53) {
+            if x.unsigned_abs() <= (1u64 << 53) || ((*x as f64) - *y).abs() >= 4096.0 {
                 (*x as f64).partial_cmp(y)
             } else {
                 return unspec("int/float ordering beyond 2^53");
             }
         }
         (Float(x), Int(y)) => {
-            if y.unsigned_abs() <= (1u64 << 53) {
+            if y.unsigned_abs() <= (1u64 << 53) || (*x - (*y as f64)).abs() >= 4096.0 {
                 x.partial_cmp(&(*y as f64))
             } else {
                 return unspec("int/float ordering beyond 2^53");
